@@ -303,11 +303,6 @@ def make_hit(name, args, detail, key):
 
 
 def spoly_key(args, detail):
-    r, cos, rmin, rmax, c, r0, s = args
-    c = np.asarray(c, float)
-    if 'raises ValueError' in detail and ('broadcast' in detail or 'not aligned' in detail) and c.ndim == 2 \
-            and c.size and not np.any(c[-1]) and np.any(c) and (s != 1.0 or r0 != 0.0):
-        return 'C10:spolynomial-zero-top-row'
     return 'C10:spolynomial:%s' % ('raises' if 'raises' in detail else detail.split('[')[0])
 
 
@@ -384,12 +379,10 @@ def search(ctx, rng, budget):
             R, C, _, _, _, _, _ = gen_spoly_args(rng)
             sr = []
             for _ in range(int(rng.integers(1, 4))):
-                _, _, rmin, rmax, c, r0, s = gen_spoly_args(rng, allow_zero_top=False)
+                _, _, rmin, rmax, c, r0, s = gen_spoly_args(rng)
                 rmin = _limit(rng, np.ravel(R), -0.5, float(R.max())); rmax = rmin + float(rng.uniform(0.5, 3))
                 if np.any((np.abs(R - rmax) < 1e-3 * max(1, rmax)) & (R != rmax)):
                     rmax += 0.0123
-                if c.shape[0] > 1 and not np.any(c[-1]):
-                    c[-1, 0] = 1.0
                 sr.append((rmin, rmax, c, r0, s))
             run('piecewise_s', (R, C, sr), lambda A, d: 'C10:piecewise_s:' + d.split('[')[0], ('pws', len(sr)))
             # copies and scalar multiplication
@@ -400,9 +393,7 @@ def search(ctx, rng, budget):
             elif kind == 'PiecewisePolynomial':
                 args = (g, ranges)
             else:
-                sa2 = gen_spoly_args(rng, allow_zero_top=False)
-                if sa2[4].shape[0] > 1 and not np.any(sa2[4][-1]):
-                    sa2[4][-1, 0] = 1.0
+                sa2 = gen_spoly_args(rng)
                 args = sa2
             run('scalar_copy', (kind, args, k), lambda A, d: 'C10:scalar_copy:%s:%s' % (A[0], d), ('sc', kind))
         # Angular algebra at random points
@@ -417,8 +408,6 @@ def search(ctx, rng, budget):
             a = rng.normal(size=int(rng.integers(1, 10)))
 
         def akey(A, d):
-            if A[0] == 'sub' and len(A[1]) <= len(A[2]):
-                return 'C10:angular-sub-sign'
             return 'C10:angular:%s:%s' % (A[0], d.split('[')[0])
         run('angular', (op, a, b, xs), akey, ('ang', op, len(a) > len(b), len(a) == len(b)))
         if it % 5 == 0:
@@ -557,7 +546,7 @@ def run(ctx):
         'THEOREMS (all inputs): shift/stretch coefficient transforms (any commutative ring); func = polynomial on '
         '[max(r_min,0), r_max) and 0 outside for any ascending non-negative grid; a(k) antiderivative for all k; abel = '
         'Abel(func) at every grid point for every degree, shift, stretch s<>0, reduced on/off, r_max <= R_m; piecewise sums; '
-        'Angular add/mul/scal/cos/cossin/legendre evaluation homomorphisms; Angular.__sub__ as written is refuted',
+        'Angular add/sub/mul/scal/cos/cossin/legendre evaluation homomorphisms',
         'PER-INSTANCE machine-checked goals: Polynomial.abel sampled grid points (Interval), ApproxGaussian segments for 7 '
         'tabulated and the sampled tolerances (Interval); ApproxGaussian for all tol is not a theorem (node search not modelled)',
         'ONLY SWEPT NUMERICALLY (scipy quadrature, rtol 1e-9 of the absolute terms): SPolynomial, PiecewiseSPolynomial, '
